@@ -143,7 +143,8 @@ def gen_instance(rng, profile=None):
     slot_mode = p.get("slots", rng.choice(["none", "some", "some", "some"]))
     if slot_mode != "none":
         slots = []
-        for s in range(rng.choice([1, 1, 2, 3])):
+        many = slot_mode == "many"     # slot-distribution profile: more slots, more tracks
+        for s in range(rng.choice([3, 4, 5, 6]) if many else rng.choice([1, 1, 2, 3])):
             st = grid * rng.randrange(0, max(1, horizon // grid))
             en = st + grid * rng.choice([1, 2, 4])
             slots.append({
@@ -151,7 +152,7 @@ def gen_instance(rng, profile=None):
                 "location": "L%d" % rng.randrange(nlocs),
                 "start": iso(st),
                 "end": iso(en),
-                "trackCount": rng.choice([1, 1, 2, 3]),
+                "trackCount": rng.choice([1, 2, 3, 4, 6]) if many else rng.choice([1, 1, 2, 3]),
             })
     # depots
     depot_mode = p.get("depots", rng.choice(["absent", "ample", "ample", "scarce", "restricted", "zero"]))
@@ -237,7 +238,70 @@ def gen_instance(rng, profile=None):
 
 
 def encode(inst, perm=None):
-    """Numeric encoding for the OCaml driver (list of ints)."""
+    """Encoding for the OCaml driver: the instance as listed, every reference still an identifier (strings interned as
+    integers — the only thing done here); the resolution of the references is RawLoad.resolve, in Coq."""
+    ids = {}
+
+    def I(x):
+        return ids.setdefault(x, len(ids) + 1000)
+
+    def o(x):
+        return -1 if x is None else int(x)
+
+    out = ["RAW", len(inst["vehicleTypes"])]
+    for t in inst["vehicleTypes"]:
+        out += [I(t["id"]), t["capacity"], t["seats"], o(t.get("maximalFormationCount"))]
+    out.append(len(inst["locations"]))
+    out += [I(l["id"]) for l in inst["locations"]]
+    deps = inst.get("depots")
+    if deps is None:
+        out.append(-1)
+    else:
+        out.append(len(deps))
+        for d in deps:
+            out += [I(d["location"]), d["capacity"], len(d["allowedTypes"])]
+            for a in d["allowedTypes"]:
+                out += [I(a["vehicleType"]), o(a.get("capacity"))]
+    out.append(len(inst["routes"]))
+    for r in inst["routes"]:
+        out += [I(r["id"]), I(r["vehicleType"]), len(r["segments"])]
+        for g in r["segments"]:
+            out += [I(g["id"]), I(g["origin"]), I(g["destination"]), g["distance"], g["duration"],
+                    o(g.get("maximalFormationCount"))]
+    out.append(len(inst["departures"]))
+    for d in inst["departures"]:
+        out += [I(d["route"]), len(d["segments"])]
+        for g in d["segments"]:
+            out += [I(g["routeSegment"]), from_iso(g["departure"]), g["passengers"], g["seated"]]
+    slots = inst.get("maintenanceSlots")
+    if slots is None:
+        out.append(-1)
+    else:
+        out.append(len(slots))
+        for g in slots:
+            out += [I(g["location"]), from_iso(g["start"]), from_iso(g["end"]), g["trackCount"]]
+    dh = inst["deadHeadTrips"]
+    out.append(len(dh["indices"]))
+    out += [I(x) for x in dh["indices"]]
+    for m in (dh["durations"], dh["distances"]):
+        out.append(len(m))
+        for row in m:
+            out.append(len(row))
+            out += row
+    pr = inst["parameters"]
+    out += [1 if pr.get("forbidDeadHeadTrips") else 0, pr["shunting"]["minimalDuration"],
+            pr["shunting"]["deadHeadTripDuration"],
+            (pr.get("maintenance") or {}).get("maximalDistance", 0),
+            pr["costs"]["staff"], pr["costs"]["serviceTrip"], pr["costs"].get("maintenance", 0) or 0,
+            pr["costs"]["deadHeadTrip"], pr["costs"]["idle"]]
+    perm = perm if perm is not None else list(range(len(inst["locations"])))
+    out.append(len(perm))
+    out += perm
+    return out
+
+
+def encode_resolved(inst, perm=None):
+    """The former encoding (references resolved here, in Python); kept for reading old replays and as a cross-check."""
     out = []
     tix = {t["id"]: k for k, t in enumerate(inst["vehicleTypes"])}
     lix = {l["id"]: k for k, l in enumerate(inst["locations"])}
